@@ -14,6 +14,8 @@ Two remarks on the statements.
   `<` on ℝ is used: `insertBy` moves the new entry only past entries of strictly smaller key).
 -/
 import HypnoModel.Gen.Critical
+import HypnoModel.Gen.Tokamak
+import Mathlib.Algebra.Order.Ring.Rat
 import HypnoModel.Model.Critical
 import HypnoModel.Lemmas.Critical
 
@@ -329,5 +331,21 @@ theorem zmid_reads_first_and_last_column : Gen.R.Critical.Zmid_entries = [(0, 0)
 theorem rmid_is_mean (a b : ℝ) : Gen.R.Critical.Rmid a b = (a + b) / 2 := by unfold Gen.R.Critical.Rmid; ring
 
 theorem zmid_is_mean (a b : ℝ) : Gen.R.Critical.Zmid a b = (a + b) / 2 := by unfold Gen.R.Critical.Zmid; ring
+
+/-! ## Leg labelling (`findLegs`, GENERATED `Gen.Tokamak.legsSwap`) -/
+section Legs
+open Gen.Tokamak
+
+/-- legs are labelled by the major radius of their strike points: after the exchange the leg returned as inner strikes at R ≤ that of outer -/
+theorem legs_labelled_by_strike (strike : Nat → Rat) :
+    (if legsSwap strike then strike 1 else strike 0) ≤ (if legsSwap strike then strike 0 else strike 1) := by
+  unfold legsSwap
+  by_cases h : strike 0 > strike 1
+  · simp [h]; exact le_of_lt h
+  · simp [h]; exact not_lt.mp h
+theorem legs_swap_iff (strike : Nat → Rat) : legsSwap strike = true ↔ strike 1 < strike 0 := by
+  unfold legsSwap; simp
+
+end Legs
 
 end HypnoModel.Props.C19
